@@ -56,6 +56,9 @@ pub fn install_hook() {
 fn classify() -> &'static str {
     LAST_PANIC.with(|p| {
         let m = p.borrow();
+        if std::env::var("VERIF_DEBUG").is_ok() {
+            eprintln!("panic message: {}", *m);
+        }
         if m.starts_with("Attempted to take") {
             "take"
         } else if m.contains("scratch.available()") || m.contains("self.available() >= n * len") || m.contains("tmp_bytes") {
@@ -213,7 +216,7 @@ macro_rules! backend_cases {
             use poulpy_hal::{
                 api::*,
                 layouts::{
-                    Backend, DataView, DeviceBuf, MatZnx, Module, ScalarZnx, Scratch, ScratchOwned, VecZnx, VecZnxBig, VecZnxDft,
+                    Backend, DataView, DataViewMut, DeviceBuf, MatZnx, Module, ScalarZnx, Scratch, ScratchOwned, VecZnx, VecZnxBig, VecZnxDft,
                     VmpPMat, ZnxInfos, ZnxView, ZnxViewMut,
                 },
                 source::Source,
@@ -226,6 +229,96 @@ macro_rules! backend_cases {
                 <Scratch<BE> as ScratchFromBytes<BE>>::from_bytes(b)
             }
 
+
+            fn lay_glwe(n: usize, b2k: usize, size: usize, rank: usize) -> GLWELayout {
+                glwe_layout(n, b2k.max(1), size, rank)
+            }
+
+            /// the companion `*_tmp_bytes` query of every operation of both tables
+            pub fn tb_of(module: &Module<BE>, op: &str, kv: &Kv) -> Option<usize> {
+                let n = module.n();
+                let size = kv.g("size");
+                let rank = kv.g("rank");
+                let b2k = if kv.g("b2k") == 0 { 17 } else { kv.g("b2k") };
+                let (asize, arank, ab2k) = (kv.g("asize"), kv.g("arank"), kv.g("ab2k"));
+                let (krin, krout, ksize, kb2k, dnum, dsize) =
+                    (kv.g("krin"), kv.g("krout"), kv.g("ksize"), kv.g("kb2k"), kv.g("dnum"), kv.g("dsize"));
+                let res = lay_glwe(n, b2k, size, rank);
+                let a = lay_glwe(n, ab2k, asize, arank);
+                let gglwe = GGLWELayout {
+                    n: Degree(n as u32),
+                    base2k: Base2K(kb2k.max(1) as u32),
+                    k: TorusPrecision((kb2k * ksize) as u32),
+                    rank_in: Rank(krin as u32),
+                    rank_out: Rank(krout as u32),
+                    dnum: Dnum(dnum as u32),
+                    dsize: Dsize(dsize.max(1) as u32),
+                };
+                let ggsw = GGSWLayout {
+                    n: Degree(n as u32),
+                    base2k: Base2K(kb2k.max(1) as u32),
+                    k: TorusPrecision((kb2k * ksize) as u32),
+                    rank: Rank(krout as u32),
+                    dnum: Dnum(dnum as u32),
+                    dsize: Dsize(dsize.max(1) as u32),
+                };
+                let lwe = LWELayout {
+                    n: Degree(if kv.g("nlwe") == 0 { 5 } else { kv.g("nlwe") } as u32),
+                    base2k: Base2K(b2k as u32),
+                    k: TorusPrecision((b2k * size) as u32),
+                };
+                Some(match op {
+                    "vec_znx_normalize" => module.vec_znx_normalize_tmp_bytes(),
+                    "vec_znx_lsh" => module.vec_znx_lsh_tmp_bytes(),
+                    "vec_znx_rsh" => module.vec_znx_rsh_tmp_bytes(),
+                    "vec_znx_rotate_assign" => module.vec_znx_rotate_assign_tmp_bytes(),
+                    "vec_znx_automorphism_assign" => module.vec_znx_automorphism_assign_tmp_bytes(),
+                    "vec_znx_mul_xp_minus_one_assign" => module.vec_znx_mul_xp_minus_one_assign_tmp_bytes(),
+                    "vec_znx_split_ring" => module.vec_znx_split_ring_tmp_bytes(),
+                    "vec_znx_merge_rings" => module.vec_znx_merge_rings_tmp_bytes(),
+                    "vec_znx_big_normalize" => module.vec_znx_big_normalize_tmp_bytes(),
+                    "vec_znx_big_automorphism_assign" => module.vec_znx_big_automorphism_assign_tmp_bytes(),
+                    "vec_znx_idft_apply" => module.vec_znx_idft_apply_tmp_bytes(),
+                    "vmp_prepare" => module.vmp_prepare_tmp_bytes(kv.g("rows"), kv.g("colsin"), kv.g("colsout").max(1), size),
+                    "vmp_apply_dft" => {
+                        module.vmp_apply_dft_tmp_bytes(size, asize, kv.g("rows"), kv.g("colsin"), kv.g("colsout").max(1), size)
+                    }
+                    "vmp_apply_dft_to_dft" => {
+                        module.vmp_apply_dft_to_dft_tmp_bytes(size, asize, kv.g("rows"), kv.g("colsin"), kv.g("colsout").max(1), size)
+                    }
+                    "cnv_prepare_left" => module.cnv_prepare_left_tmp_bytes(size, asize),
+                    "cnv_prepare_right" => module.cnv_prepare_right_tmp_bytes(size, asize),
+                    "cnv_prepare_self" => module.cnv_prepare_self_tmp_bytes(size, asize),
+                    "cnv_apply_dft" => module.cnv_apply_dft_tmp_bytes(kv.g("off"), size, asize, kv.g("bsize")),
+                    "cnv_by_const_apply" => module.cnv_by_const_apply_tmp_bytes(kv.g("off"), size, asize, kv.g("bsize")),
+                    "cnv_pairwise_apply_dft" => module.cnv_pairwise_apply_dft_tmp_bytes(kv.g("off"), size, asize, kv.g("bsize")),
+                    "lwe_encrypt_sk" => module.lwe_encrypt_sk_tmp_bytes(&lwe),
+                    "lwe_decrypt" => module.lwe_decrypt_tmp_bytes(&lwe),
+                    "glwe_encrypt_sk" => module.glwe_encrypt_sk_tmp_bytes(&res),
+                    "glwe_encrypt_pk" => module.glwe_encrypt_pk_tmp_bytes(&res),
+                    "glwe_decrypt" => module.glwe_decrypt_tmp_bytes(&res),
+                    "glwe_normalize" | "glwe_normalize_assign" => module.glwe_normalize_tmp_bytes(),
+                    "glwe_rsh" | "glwe_lsh" | "glwe_lsh_assign" => module.glwe_shift_tmp_bytes(),
+                    "glwe_rotate_assign" | "glwe_mul_xp_minus_one_assign" => module.glwe_rotate_tmp_bytes(),
+                    "glwe_keyswitch" => module.glwe_keyswitch_tmp_bytes(&res, &a, &gglwe),
+                    "glwe_keyswitch_assign" => module.glwe_keyswitch_tmp_bytes(&res, &res, &gglwe),
+                    "glwe_external_product" => module.glwe_external_product_tmp_bytes(&res, &a, &ggsw),
+                    "glwe_external_product_assign" => module.glwe_external_product_tmp_bytes(&res, &res, &ggsw),
+                    "glwe_automorphism" | "glwe_automorphism_add" | "glwe_automorphism_sub" | "glwe_automorphism_sub_negate" => module.glwe_automorphism_tmp_bytes(&res, &a, &gglwe),
+                    "glwe_automorphism_assign"
+                    | "glwe_automorphism_add_assign"
+                    | "glwe_automorphism_sub_assign"
+                    | "glwe_automorphism_sub_negate_assign" => {
+                        module.glwe_automorphism_tmp_bytes(&res, &res, &gglwe)
+                    }
+                    "glwe_trace" => module.glwe_trace_tmp_bytes(&res, &a, &gglwe),
+                    "glwe_trace_assign" => module.glwe_trace_tmp_bytes(&res, &res, &gglwe),
+                    "gglwe_encrypt_sk" => module.gglwe_encrypt_sk_tmp_bytes(&gglwe),
+                    "ggsw_encrypt_sk" => module.ggsw_encrypt_sk_tmp_bytes(&ggsw),
+                    _ => return None,
+                })
+            }
+
             /// Some(answer) or None = unknown op
             pub fn case(op: &str, kv: &Kv) -> Option<String> {
                 let n = kv.g("n");
@@ -236,10 +329,13 @@ macro_rules! backend_cases {
                 let rank = kv.g("rank");
                 let b2k = if kv.g("b2k") == 0 { 17 } else { kv.g("b2k") };
                 let big_scratch = || -> ScratchOwned<BE> { ScratchOwned::<BE>::alloc(1 << 22) };
+                let tb: usize = tb_of(&module, op, kv)?;
+                if kv.g("tbonly") == 1 {
+                    return Some(format!("tb={tb}"));
+                }
 
                 macro_rules! finish {
                     ($tb:expr, $f:expr) => {{
-                        let tb: usize = $tb;
                         let o = exec_window::<Scratch<BE>>(tb, mis, win, wrap, $f);
                         return Some(fmt_outcome(tb, &o));
                     }};
@@ -250,7 +346,7 @@ macro_rules! backend_cases {
                     "vec_znx_normalize" => {
                         let a = rand_vec(n, 1, size, 40, 1);
                         let rb = if kv.g("ab2k") == 0 { b2k } else { kv.g("ab2k") };
-                        finish!(module.vec_znx_normalize_tmp_bytes(), |s: &mut Scratch<BE>| {
+                        finish!(tb, |s: &mut Scratch<BE>| {
                             let mut r = VecZnx::alloc(n, 1, size);
                             module.vec_znx_normalize(&mut r, rb, 0, 0, &a, b2k, 0, s);
                             bytes_of_i64(r.raw())
@@ -258,24 +354,19 @@ macro_rules! backend_cases {
                     }
                     "vec_znx_lsh" | "vec_znx_rsh" => {
                         let a = rand_vec(n, 1, size, b2k, 2);
-                        let tb = if op == "vec_znx_lsh" { module.vec_znx_lsh_tmp_bytes() } else { module.vec_znx_rsh_tmp_bytes() };
+                        let sh = if size >= 2 { b2k + 3 } else { b2k / 2 };
                         finish!(tb, |s: &mut Scratch<BE>| {
                             let mut r = VecZnx::alloc(n, 1, size);
                             if op == "vec_znx_lsh" {
-                                module.vec_znx_lsh(b2k, b2k + 3, &mut r, 0, &a, 0, s);
+                                module.vec_znx_lsh(b2k, sh, &mut r, 0, &a, 0, s);
                             } else {
-                                module.vec_znx_rsh(b2k, b2k + 3, &mut r, 0, &a, 0, s);
+                                module.vec_znx_rsh(b2k, sh, &mut r, 0, &a, 0, s);
                             }
                             bytes_of_i64(r.raw())
                         })
                     }
                     "vec_znx_rotate_assign" | "vec_znx_automorphism_assign" | "vec_znx_mul_xp_minus_one_assign" => {
                         let a = rand_vec(n, 1, size, b2k, 3);
-                        let tb = match op {
-                            "vec_znx_rotate_assign" => module.vec_znx_rotate_assign_tmp_bytes(),
-                            "vec_znx_automorphism_assign" => module.vec_znx_automorphism_assign_tmp_bytes(),
-                            _ => module.vec_znx_mul_xp_minus_one_assign_tmp_bytes(),
-                        };
                         finish!(tb, |s: &mut Scratch<BE>| {
                             let mut r = a.clone();
                             match op {
@@ -291,7 +382,7 @@ macro_rules! backend_cases {
                             return Some("skip".into());
                         }
                         let a = rand_vec(n, 1, size, b2k, 4);
-                        finish!(module.vec_znx_split_ring_tmp_bytes(), |s: &mut Scratch<BE>| {
+                        finish!(tb, |s: &mut Scratch<BE>| {
                             let mut r = vec![VecZnx::alloc(n / 2, 1, size), VecZnx::alloc(n / 2, 1, size)];
                             module.vec_znx_split_ring(&mut r, 0, &a, 0, s);
                             let mut o = bytes_of_i64(r[0].raw());
@@ -304,7 +395,7 @@ macro_rules! backend_cases {
                             return Some("skip".into());
                         }
                         let a = vec![rand_vec(n / 2, 1, size, b2k, 5), rand_vec(n / 2, 1, size, b2k, 6)];
-                        finish!(module.vec_znx_merge_rings_tmp_bytes(), |s: &mut Scratch<BE>| {
+                        finish!(tb, |s: &mut Scratch<BE>| {
                             let mut r = VecZnx::alloc(n, 1, size);
                             module.vec_znx_merge_rings(&mut r, 0, &a, 0, s);
                             bytes_of_i64(r.raw())
@@ -318,20 +409,20 @@ macro_rules! backend_cases {
                         let mut a_big = module.vec_znx_big_alloc(1, size);
                         module.vec_znx_idft_apply(&mut a_big, 0, &a_dft, 0, sc.borrow());
                         match op {
-                            "vec_znx_big_normalize" => finish!(module.vec_znx_big_normalize_tmp_bytes(), |s: &mut Scratch<BE>| {
+                            "vec_znx_big_normalize" => finish!(tb, |s: &mut Scratch<BE>| {
                                 let mut r = VecZnx::alloc(n, 1, size);
                                 module.vec_znx_big_normalize(&mut r, b2k, 0, 0, &a_big, b2k, 0, s);
                                 bytes_of_i64(r.raw())
                             }),
                             "vec_znx_big_automorphism_assign" => {
-                                finish!(module.vec_znx_big_automorphism_assign_tmp_bytes(), |s: &mut Scratch<BE>| {
+                                finish!(tb, |s: &mut Scratch<BE>| {
                                     let mut r = module.vec_znx_big_alloc(1, size);
-                                    module.vec_znx_idft_apply(&mut r, 0, &a_dft, 0, big_scratch().borrow());
+                                    r.data_mut().as_mut().copy_from_slice(a_big.data().as_ref());
                                     module.vec_znx_big_automorphism_assign(-1, &mut r, 0, s);
                                     r.data().as_ref().to_vec()
                                 })
                             }
-                            _ => finish!(module.vec_znx_idft_apply_tmp_bytes(), |s: &mut Scratch<BE>| {
+                            _ => finish!(tb, |s: &mut Scratch<BE>| {
                                 let mut r = module.vec_znx_big_alloc(1, size);
                                 module.vec_znx_idft_apply(&mut r, 0, &a_dft, 0, s);
                                 r.data().as_ref().to_vec()
@@ -344,7 +435,7 @@ macro_rules! backend_cases {
                         let v = rand_vec(n, rows * colsin * colsout, size, 10, 8);
                         mat.raw_mut().copy_from_slice(v.raw());
                         if op == "vmp_prepare" {
-                            finish!(module.vmp_prepare_tmp_bytes(rows, colsin, colsout, size), |s: &mut Scratch<BE>| {
+                            finish!(tb, |s: &mut Scratch<BE>| {
                                 let mut pm = module.vmp_pmat_alloc(rows, colsin, colsout, size);
                                 module.vmp_prepare(&mut pm, &mat, s);
                                 pm.data().as_ref().to_vec()
@@ -354,9 +445,7 @@ macro_rules! backend_cases {
                         module.vmp_prepare(&mut pm, &mat, big_scratch().borrow());
                         let a = rand_vec(n, colsin, asize, 10, 9);
                         if op == "vmp_apply_dft" {
-                            finish!(
-                                module.vmp_apply_dft_tmp_bytes(size, asize, rows, colsin, colsout, size),
-                                |s: &mut Scratch<BE>| {
+                            finish!(tb, |s: &mut Scratch<BE>| {
                                     let mut r = module.vec_znx_dft_alloc(colsout, size);
                                     module.vmp_apply_dft(&mut r, &a, &pm, s);
                                     r.data().as_ref().to_vec()
@@ -367,9 +456,7 @@ macro_rules! backend_cases {
                         for j in 0..colsin {
                             module.vec_znx_dft_apply(1, 0, &mut a_dft, j, &a, j);
                         }
-                        finish!(
-                            module.vmp_apply_dft_to_dft_tmp_bytes(size, asize, rows, colsin, colsout, size),
-                            |s: &mut Scratch<BE>| {
+                        finish!(tb, |s: &mut Scratch<BE>| {
                                 let mut r = module.vec_znx_dft_alloc(colsout, size);
                                 module.vmp_apply_dft_to_dft(&mut r, &a_dft, &pm, 0, s);
                                 r.data().as_ref().to_vec()
@@ -390,7 +477,7 @@ macro_rules! backend_cases {
                         let mut pt = LWEPlaintext::alloc(Base2K(b2k as u32), TorusPrecision((b2k * size) as u32));
                         pt.data_mut().raw_mut().iter_mut().enumerate().for_each(|(i, x)| *x = 3 + i as i64);
                         if op == "lwe_encrypt_sk" {
-                            finish!(module.lwe_encrypt_sk_tmp_bytes(&infos), |s: &mut Scratch<BE>| {
+                            finish!(tb, |s: &mut Scratch<BE>| {
                                 let mut ct = LWE::alloc_from_infos(&infos);
                                 module.lwe_encrypt_sk(
                                     &mut ct,
@@ -414,7 +501,7 @@ macro_rules! backend_cases {
                             &mut Source::new([3u8; 32]),
                             big_scratch().borrow(),
                         );
-                        finish!(module.lwe_decrypt_tmp_bytes(&infos), |s: &mut Scratch<BE>| {
+                        finish!(tb, |s: &mut Scratch<BE>| {
                             let mut p2 = LWEPlaintext::alloc(Base2K(b2k as u32), TorusPrecision((b2k * size) as u32));
                             module.lwe_decrypt(&ct, &mut p2, &sk, s);
                             bytes_of_i64(p2.data().raw())
@@ -432,7 +519,7 @@ macro_rules! backend_cases {
                         let v = rand_vec(n, 1, size, b2k.saturating_sub(2).max(1), 11);
                         pt.data_mut().raw_mut().copy_from_slice(v.raw());
                         if op == "glwe_encrypt_sk" {
-                            finish!(module.glwe_encrypt_sk_tmp_bytes(&infos), |s: &mut Scratch<BE>| {
+                            finish!(tb, |s: &mut Scratch<BE>| {
                                 let mut ct = GLWE::alloc_from_infos(&infos);
                                 module.glwe_encrypt_sk(
                                     &mut ct,
@@ -461,7 +548,7 @@ macro_rules! backend_cases {
                             let mut pkp: GLWEPublicKeyPrepared<DeviceBuf<BE>, BE> =
                                 module.glwe_public_key_prepared_alloc_from_infos(&pk);
                             module.glwe_public_key_prepare(&mut pkp, &pk);
-                            finish!(module.glwe_encrypt_pk_tmp_bytes(&infos), |s: &mut Scratch<BE>| {
+                            finish!(tb, |s: &mut Scratch<BE>| {
                                 let mut ct = GLWE::alloc_from_infos(&infos);
                                 module.glwe_encrypt_pk(
                                     &mut ct,
@@ -485,7 +572,7 @@ macro_rules! backend_cases {
                             &mut Source::new([3u8; 32]),
                             big_scratch().borrow(),
                         );
-                        finish!(module.glwe_decrypt_tmp_bytes(&infos), |s: &mut Scratch<BE>| {
+                        finish!(tb, |s: &mut Scratch<BE>| {
                             let mut p2 = GLWEPlaintext::alloc_from_infos(&infos);
                             module.glwe_decrypt(&ct, &mut p2, &skp, s);
                             bytes_of_i64(p2.data().raw())
@@ -496,11 +583,7 @@ macro_rules! backend_cases {
                     | "glwe_rotate_assign" | "glwe_mul_xp_minus_one_assign" => {
                         let a = rand_glwe(n, b2k, size, rank, 12);
                         let ab2k = if kv.g("ab2k") == 0 { b2k } else { kv.g("ab2k") };
-                        let tb = match op {
-                            "glwe_normalize" | "glwe_normalize_assign" => module.glwe_normalize_tmp_bytes(),
-                            "glwe_rsh" | "glwe_lsh" | "glwe_lsh_assign" => module.glwe_shift_tmp_bytes(),
-                            _ => module.glwe_rotate_tmp_bytes(),
-                        };
+                        let sh = if size >= 2 { b2k + 2 } else { b2k / 2 };
                         finish!(tb, |s: &mut Scratch<BE>| {
                             let mut r = a.clone();
                             match op {
@@ -511,9 +594,9 @@ macro_rules! backend_cases {
                                     return bytes_of_i64(r2.data().raw());
                                 }
                                 "glwe_normalize_assign" => module.glwe_normalize_assign(&mut r, s),
-                                "glwe_rsh" => module.glwe_rsh(b2k + 2, &mut r, s),
-                                "glwe_lsh" => module.glwe_lsh(&mut r, &a, b2k + 2, s),
-                                "glwe_lsh_assign" => module.glwe_lsh_assign(&mut r, b2k + 2, s),
+                                "glwe_rsh" => module.glwe_rsh(sh, &mut r, s),
+                                "glwe_lsh" => module.glwe_lsh(&mut r, &a, sh, s),
+                                "glwe_lsh_assign" => module.glwe_lsh_assign(&mut r, sh, s),
                                 "glwe_rotate_assign" => module.glwe_rotate_assign(3, &mut r, s),
                                 _ => module.glwe_mul_xp_minus_one_assign(3, &mut r, s),
                             }
